@@ -17,15 +17,17 @@ Eps(t) == D!Pow2(-(Fm(t).p - 1))
 Tiny(t) == I!Val(Fm(t), I!MinSub(Fm(t)))
 \* the bound for a sum-of-products with n terms
 KOf(n) == 8 * (n + 2)
-Tol(t, p) == D!DAdd(D!DMul(D!DMul(D!DInt(KOf(Len(p))), Eps(t)), AbsSum(p)), D!DMul(D!DInt(KOf(Len(p))), Tiny(t)))
+Tol(t, pp_) == D!DAdd(D!DMul(D!DMul(D!DInt(KOf(Len(pp_))), Eps(t)), AbsSum(pp_)), D!DMul(D!DInt(KOf(Len(pp_))), Tiny(t)))
 \* a logged result word r is within the bound of polynomial p
-Within(t, r, p) == I!IsFinite(Fm(t), I!Dec(t, r)) /\ D!DWithin(Num(t, r), Value(p), Tol(t, p))
+\* (formal parameters carry unusual names on purpose: TLC evaluates arguments lazily, and an argument
+\*  expression such as r.q[j] must not mention an identifier that is also a formal parameter here)
+Within(t, rw_, pp_) == I!IsFinite(Fm(t), I!Dec(t, rw_)) /\ D!DWithin(Num(t, rw_), Value(pp_), Tol(t, pp_))
 \* quotient N/W: |r*W - N| <= tolN + |r| * tolW   (W # 0)
-WithinQuot(t, r, pn, pw) ==
-    /\ I!IsFinite(Fm(t), I!Dec(t, r))
-    /\ D!DCmpAbs(D!DSub(D!DMul(Num(t, r), Value(pw)), Value(pn)),
-                 D!DAdd(D!DAdd(Tol(t, pn), D!DMul(D!DAbs(Num(t, r)), Tol(t, pw))),
-                        D!DMul(D!DMul(D!DInt(4), Eps(t)), D!DAbs(Value(pn))))) <= 0
-WithinVec(t, rs, ps) == Len(rs) = Len(ps) /\ \A i \in 1..Len(ps) : Within(t, rs[i], ps[i])
+WithinQuot(t, rw_, pn_, pw_) ==
+    /\ I!IsFinite(Fm(t), I!Dec(t, rw_))
+    /\ D!DCmpAbs(D!DSub(D!DMul(Num(t, rw_), Value(pw_)), Value(pn_)),
+                 D!DAdd(D!DAdd(Tol(t, pn_), D!DMul(D!DAbs(Num(t, rw_)), Tol(t, pw_))),
+                        D!DMul(D!DMul(D!DInt(4), Eps(t)), D!DAbs(Value(pn_))))) <= 0
+WithinVec(t, rs_, ps_) == Len(rs_) = Len(ps_) /\ \A i \in 1..Len(ps_) : Within(t, rs_[i], ps_[i])
 Flatten(P) == LET n == Len(P)  m == Len(P[1]) IN [k \in 1..(n * m) |-> P[((k - 1) \div m) + 1][((k - 1) % m) + 1]]
 =============================================================================
